@@ -89,6 +89,9 @@ def build_rows(market):
                     price = prev['close']
             rows.append(row)
         out[sym] = rows
+    for sym, src in market.get('clone', {}).items():
+        if sym in out and src in out:
+            out[sym] = [dict(r) for r in out[src]]      # a duplicated series (two share classes of one company)
     return out
 
 
